@@ -1,14 +1,16 @@
 /-
 C06 — Compiled bytecode computes what the interpreter computed.
 
-Three models carry the statements: the constant codec (Model/Const.lean — `ConstElem::write_le` /
-`from_le`), the codec of kinds and of set and table constants (Model/ConstValue.lean) and `run_program` as a register machine (Model/RunProgram.lean).  The compile side
-(which function name and which registers each generated function struct emits) is not modelled:
-the correspondence check runs it and compares.
+Four models carry the statements: the constant codec (Model/Const.lean — `ConstElem::write_le` /
+`from_le`), the codec of kinds and of set and table constants (Model/ConstValue.lean), `run_program` as a register machine
+(Model/RunProgram.lean) and the compiler's context — one register per cell, one constant per compiled cell, the emitted
+instructions — (Model/Compile.lean).  Which function name each generated function struct emits, which of its fields it
+hands to the compiler and in which order is not modelled: the correspondence check runs it and compares.
 -/
 import MechVerif.Lemmas.Const
 import MechVerif.Lemmas.ConstValue
 import MechVerif.Model.RunProgram
+import MechVerif.Lemmas.Compile
 namespace MechVerif.RunProgram
 open MechVerif.Const
 
@@ -142,3 +144,132 @@ example : exTable.wf := by
          (constructor <;> simp [NV.wf, CV.wf, CV.kind, tagOfEk]), by decide⟩
 
 end MechVerif.ConstValue
+
+/-! ### the compiler: one register per cell, consecutive constant ids, one operation per step (Model/Compile.lean) -/
+namespace MechVerif.Compile
+open MechVerif.RunProgram
+
+/-- After compiling any plan from the empty context the register map is a bijection between the cells the plan
+    mentions and the registers `0 … nextReg-1`: two cells have the same register exactly when they are the same cell,
+    a number is a register of some cell exactly when it is below `nextReg` (the header's register count), every cell
+    of every step has a register, and compiling more steps never changes a register already given. -/
+theorem C06_registers_by_cell (plan : List Step) :
+    (∀ a b ra rb, regOf (compilePlan Ctx.empty plan).regMap a = some ra →
+       regOf (compilePlan Ctx.empty plan).regMap b = some rb → (ra = rb ↔ a = b)) ∧
+    (∀ r, r < (compilePlan Ctx.empty plan).nextReg ↔ ∃ a, regOf (compilePlan Ctx.empty plan).regMap a = some r) ∧
+    (∀ s ∈ plan, ∀ a ∈ s.out :: s.args, ∃ r, regOf (compilePlan Ctx.empty plan).regMap a = some r) ∧
+    (∀ (more : List Step) (a : Addr) (r : Reg), regOf (compilePlan Ctx.empty plan).regMap a = some r →
+       regOf (compilePlan Ctx.empty (plan ++ more)).regMap a = some r) := by
+  obtain ⟨hi, _⟩ := compilePlan_spec plan Ctx.empty Inv.empty
+  refine ⟨?_, ?_, compilePlan_has_reg plan Ctx.empty Inv.empty, ?_⟩
+  · intro a b ra rb ha hb
+    constructor
+    · intro h; subst h; exact hi.inj a b ra ha hb
+    · intro h; subst h; rw [ha] at hb; exact Option.some.inj hb
+  · intro r
+    exact ⟨hi.surj r, fun ⟨a, ha⟩ => hi.lt a r ha⟩
+  · intro more a r ha
+    rw [compilePlan_append]
+    exact (compilePlan_spec more _ hi).2.regOf ha
+
+/-- What a step adds to the program, whatever was compiled before it: one `ConstLoad` for its output cell and one for
+    each argument cell in order, each into the register of its cell, with constant ids counting up from the number of
+    constants there were (the constants being those cells, in that order); then exactly one operation of the step's
+    class and function id whose destination is the register of the output cell and whose sources are the registers of
+    the argument cells in order. -/
+theorem C06_compile_step_shape (pre : List Step) (s : Step) :
+    ∃ (d : Reg) (rs : List Reg),
+      rs.length = s.args.length ∧
+      (s.out :: s.args).map (regOf (compilePlan Ctx.empty (pre ++ [s])).regMap) = (d :: rs).map some ∧
+      (compilePlan Ctx.empty (pre ++ [s])).instrs =
+        (compilePlan Ctx.empty pre).instrs ++
+          (d :: rs).mapIdx (fun i r => Instr.constLoad r ((compilePlan Ctx.empty pre).consts.length + i)) ++
+          [Instr.op s.cls s.fxnId d rs] ∧
+      (compilePlan Ctx.empty (pre ++ [s])).consts = (compilePlan Ctx.empty pre).consts ++ (s.out :: s.args) := by
+  obtain ⟨hi, _⟩ := compilePlan_spec pre Ctx.empty Inv.empty
+  obtain ⟨d, rs, _, _, h3, h4, h5, _⟩ := compileStep_spec (compilePlan Ctx.empty pre) s hi
+  have hc : compilePlan Ctx.empty (pre ++ [s]) = compileStep (compilePlan Ctx.empty pre) s := by
+    rw [compilePlan_append]; rfl
+  refine ⟨d, rs, ?_, by rw [hc]; exact h3, by rw [hc]; exact h4, by rw [hc]; exact h5⟩
+  have := congrArg List.length h3
+  simpa using this.symm
+
+/-- Compiling a plan and running the result: when every function id of the plan is registered in the fresh
+    interpreter, the compiled stream runs without an error in a register file of the header's size and returns the
+    value the output cell of the last step held when the plan was compiled — the constant loaded last into the
+    destination register of the last operation. -/
+theorem C06_run_compiled_returns_last_out (registered : Nat → Bool) (store : Addr → String)
+    (pre : List Step) (last : Step) (hreg : ∀ s ∈ pre ++ [last], registered s.fxnId = true) :
+    run registered store (compilePlan Ctx.empty (pre ++ [last])) = .ok (store last.out) := by
+  have hc : compilePlan Ctx.empty (pre ++ [last]) = compileStep (compilePlan Ctx.empty pre) last := by
+    rw [compilePlan_append]; rfl
+  obtain ⟨hi, _⟩ := compilePlan_spec pre Ctx.empty Inv.empty
+  obtain ⟨d, rs, _, hx, _⟩ := compileStep_spec (compilePlan Ctx.empty pre) last hi
+  have hfit : Fits ((compilePlan Ctx.empty (pre ++ [last])).consts.map store) (compilePlan Ctx.empty (pre ++ [last])).nextReg
+      store (compileStep (compilePlan Ctx.empty pre) last) := by
+    rw [hc]; exact ⟨Nat.le_refl _, [], by simp⟩
+  have h0 : Runs ((compilePlan Ctx.empty (pre ++ [last])).consts.map store) registered
+      ⟨List.replicate (compilePlan Ctx.empty (pre ++ [last])).nextReg "empty", "empty"⟩ Ctx.empty
+      ⟨List.replicate (compilePlan Ctx.empty (pre ++ [last])).nextReg "empty", "empty"⟩ := by
+    simp [Runs, Ctx.empty, runIns]
+  obtain ⟨st1, r1, l1, n1⟩ := runs_compilePlan pre Ctx.empty _ Inv.empty h0
+    (by intro a r h; simp [Ctx.empty, regOf] at h) (by simp) (Fits.of_ext hx hfit)
+    (fun s hs => hreg s (List.mem_append_left _ hs))
+  obtain ⟨st2, r2, _, _, o2⟩ := runs_compileStep (compilePlan Ctx.empty pre) last st1 hi r1 l1 n1 hfit
+    (hreg last (by simp))
+  unfold Runs at r2
+  rw [← hc] at r2
+  simp only [run, runProgram, Option.getD_none, r2, o2]
+
+/-- And when the plan contains a step whose function id the fresh interpreter does not know, running the compiled
+    stream is an error — the one naming the arity of the first such step — never a value. -/
+theorem C06_run_compiled_unregistered_is_error (registered : Nat → Bool) (store : Addr → String)
+    (pre : List Step) (s : Step) (rest : List Step) (hpre : ∀ q ∈ pre, registered q.fxnId = true)
+    (hs : registered s.fxnId = false) :
+    run registered store (compilePlan Ctx.empty (pre ++ s :: rest)) = .error (.unknownFunction s.cls.arity) := by
+  have hc : compilePlan Ctx.empty (pre ++ s :: rest) = compilePlan (compileStep (compilePlan Ctx.empty pre) s) rest := by
+    rw [compilePlan_append]; rfl
+  obtain ⟨hi, _⟩ := compilePlan_spec pre Ctx.empty Inv.empty
+  obtain ⟨d, rs, hi', hx, _⟩ := compileStep_spec (compilePlan Ctx.empty pre) s hi
+  have hy := (compilePlan_spec rest _ hi').2
+  have hfit : Fits ((compilePlan Ctx.empty (pre ++ s :: rest)).consts.map store) (compilePlan Ctx.empty (pre ++ s :: rest)).nextReg
+      store (compileStep (compilePlan Ctx.empty pre) s) := by
+    apply Fits.of_ext hy
+    rw [hc]; exact ⟨Nat.le_refl _, [], by simp⟩
+  have h0 : Runs ((compilePlan Ctx.empty (pre ++ s :: rest)).consts.map store) registered
+      ⟨List.replicate (compilePlan Ctx.empty (pre ++ s :: rest)).nextReg "empty", "empty"⟩ Ctx.empty
+      ⟨List.replicate (compilePlan Ctx.empty (pre ++ s :: rest)).nextReg "empty", "empty"⟩ := by
+    simp [Runs, Ctx.empty, runIns]
+  obtain ⟨st1, r1, l1, n1⟩ := runs_compilePlan pre Ctx.empty _ Inv.empty h0
+    (by intro a r h; simp [Ctx.empty, regOf] at h) (by simp) (Fits.of_ext hx hfit) hpre
+  obtain ⟨i, hi2⟩ := hy.instrs
+  have := run_compileStep_unregistered (compilePlan Ctx.empty pre) s st1 hi r1 l1 n1 hfit hs (i.map (toIns registered))
+  rw [← List.map_append, ← hi2, ← hc] at this
+  simp only [run, runProgram, Option.getD_none, this]
+
+/-! `b := a + a; c := b * a` as the interpreter plans it: the sum into a temporary (cell 11) over the cell of `a`
+    (cell 10) twice, the definition of `b` over that temporary (with its name and mutability cells 12 and 13), the
+    product into a new temporary (cell 14) over the cells of `b` and `a`. -/
+def exPlan : List Step :=
+  [⟨.bin, 501, 11, [10, 10]⟩, ⟨.bin, 502, 11, [12, 13]⟩, ⟨.bin, 503, 14, [11, 10]⟩]
+
+def exStore : Addr → String
+  | 10 => "f64:3" | 11 => "f64:6" | 12 => "string:b" | 13 => "bool:false" | 14 => "f64:18" | _ => "empty"
+
+/-- five cells, five registers; the cell of `a` keeps register 1 and the temporary register 0 wherever they recur -/
+example : (compilePlan Ctx.empty exPlan).regMap = [(11, 0), (10, 1), (12, 2), (13, 3), (14, 4)] := by decide
+example : (compilePlan Ctx.empty exPlan).nextReg = 5 := by decide
+example : (compilePlan Ctx.empty exPlan).consts = [11, 10, 10, 11, 12, 13, 14, 11, 10] := by decide
+example : (compilePlan Ctx.empty exPlan).instrs =
+    [.constLoad 0 0, .constLoad 1 1, .constLoad 1 2, .op .bin 501 0 [1, 1],
+     .constLoad 0 3, .constLoad 2 4, .constLoad 3 5, .op .bin 502 0 [2, 3],
+     .constLoad 4 6, .constLoad 0 7, .constLoad 1 8, .op .bin 503 4 [0, 1]] := by decide
+/-- loaded and run with every function registered, the program returns the product; with the last one unknown, an error -/
+example : run (fun _ => true) exStore (compilePlan Ctx.empty exPlan) = .ok "f64:18" := by rfl
+example : run (fun f => f != 503) exStore (compilePlan Ctx.empty exPlan) = .error (.unknownFunction (some 2)) := by rfl
+example : ∀ s ∈ exPlan, s.wf := by
+  intro s hs
+  simp only [exPlan, List.mem_cons, List.not_mem_nil, or_false] at hs
+  rcases hs with rfl | rfl | rfl <;> rfl
+
+end MechVerif.Compile
